@@ -59,6 +59,8 @@ def make_value(desc, child_sum=0):
         return [make_value(x) for x in v]
     if k == "dict":
         return {kk: make_value(x) for kk, x in v}
+    if k == "pdts":
+        return pd.Timestamp(v)
     if k == "npscalar":
         return np.dtype(desc["dtype"]).type(v)
     if k == "nd":
@@ -211,3 +213,22 @@ def prelay(spec):
 
 
 FUNCS["prelay"] = prelay
+
+
+# ---- calls with date / time arguments (C10: recorded argument hashes) ------------------------
+@memento_function(cluster=CL, version="1")
+def dchild(when, tag=0):
+    _trace(("exec", "dchild", tag, None))
+    return None if when is None else when.isoformat()
+
+
+@memento_function(cluster=CL, version="1")
+def dparent(whens, batch=False):
+    _trace(("exec", "dparent", len(whens), None))
+    if batch:
+        return dchild.call_batch([{"when": w, "tag": i} for i, w in enumerate(whens)])
+    return [dchild(w, tag=i) for i, w in enumerate(whens)]
+
+
+FUNCS["dchild"] = dchild
+FUNCS["dparent"] = dparent
